@@ -16,7 +16,7 @@ PROP = "C19"
 RUNNER = ("RunC19", "run_C19")
 COQ_TARGETS = ["theories/RunC19.vo", "theories/QplibProofs.vo"]
 SHARD = 60
-AUTHORITY = ("C19_objective / C19_constraint_sides / C19_infinity / C19_var_types / C19_errors "
+AUTHORITY = ("C19_load_render_all (load (render ly M) = meaning M for every well-formed M and layout) / C19_objective / C19_constraint_sides / C19_infinity / C19_var_types / C19_errors "
              "(coq/props/C19.v) about the reader model coq/theories/Qplib.v; the expected instance is "
              "`meaning M` of the independent spec coq/theories/QplibSpec.v, checked equal to the model "
              "reader's result on every rendered text")
@@ -44,8 +44,7 @@ ASSUMPTIONS = ["every generated literal denotes a binary64 exactly (small dyadic
                "(VERIF_C19_PROBE=1), recorded as observations, never asserted by the passing check",
                "HashMap iteration order is not observable: functions are compared as polynomials, variables and "
                "constraints by id"]
-PLANNED = ["C19_load_render (Tier B): load (render ly M) ~ meaning M for every well-formed model, proved; today it is "
-           "checked on every generated case (the judge reports a machinery error if the model reader and meaning M differ)"]
+PLANNED = []   # C19_load_render_all (Tier B) is proved: coq/theories/QplibRoundTrip.v
 PER_CASE_TIMEOUT = 20.0
 
 
